@@ -460,6 +460,29 @@ func (m *MutAnalysis) Mutations(fn *ssa.Function, seeds []ssa.Value, chain []str
 					}
 					callee := com.StaticCallee()
 					name := fullName(callee)
+					if callee == nil && refLike(x.Type()) {
+						// an entry of a package-level table of functions
+						if cs := m.tableCallees(com.Value); len(cs) > 0 {
+							allFresh := true
+							for _, c := range cs {
+								if !m.returnsFresh(c) {
+									allFresh = false
+								}
+							}
+							dArg := false
+							for _, a := range com.Args {
+								if isD(a) || shallow[a] || nested[a] {
+									dArg = true
+								}
+							}
+							if allFresh {
+								if dArg {
+									changed = mark(x, shallow) || changed
+								}
+								continue
+							}
+						}
+					}
 					anyD := false
 					for _, a := range com.Args {
 						if isD(a) || shallow[a] || nested[a] {
@@ -605,6 +628,20 @@ func (m *MutAnalysis) Mutations(fn *ssa.Function, seeds []ssa.Value, chain []str
 				}
 				callee := com.StaticCallee()
 				if callee == nil {
+					// an entry of a package-level table of functions: every entry may be the callee
+					for _, tc := range m.tableCallees(com.Value) {
+						var seeds []ssa.Value
+						for i, a := range com.Args {
+							if isD(a) && i < len(tc.Params) {
+								seeds = append(seeds, tc.Params[i])
+							}
+						}
+						if len(seeds) > 0 {
+							if sub := m.Mutations(tc, seeds, chain); len(sub) > 0 {
+								add(pos, "", sub)
+							}
+						}
+					}
 					// call of a function value: closures created in this function
 					if mc, ok := com.Value.(*ssa.MakeClosure); ok {
 						callee = mc.Fn.(*ssa.Function)
@@ -999,11 +1036,32 @@ func (m *MutAnalysis) freshValue(fn *ssa.Function, v ssa.Value, seen map[ssa.Val
 			if c := x.Common().StaticCallee(); c != nil && c != fn && m.inModule(c) {
 				return m.returnsFresh(c)
 			}
+			if !x.Common().IsInvoke() && x.Common().StaticCallee() == nil {
+				// an entry of a package-level table of functions: fresh if every entry is
+				if cs := m.tableCallees(x.Common().Value); len(cs) > 0 {
+					for _, c := range cs {
+						if c == fn || !m.returnsFresh(c) {
+							return false
+						}
+					}
+					return true
+				}
+			}
 			return false
 		case *ssa.Extract:
 			if call, ok := x.Tuple.(*ssa.Call); ok {
 				if c := call.Common().StaticCallee(); c != nil && c != fn && m.inModule(c) {
 					return m.returnsFresh(c)
+				}
+				if !call.Common().IsInvoke() && call.Common().StaticCallee() == nil {
+					if cs := m.tableCallees(call.Common().Value); len(cs) > 0 {
+						for _, c := range cs {
+							if c == fn || !m.returnsFresh(c) {
+								return false
+							}
+						}
+						return true
+					}
 				}
 			}
 			return false
@@ -1144,4 +1202,79 @@ func (m *MutAnalysis) elemsFresh(fn *ssa.Function) bool {
 	}
 	m.elemMemo[key] = found
 	return found
+}
+
+// tableCallees resolves a call of a function value that was loaded from a
+// package-level table (a map, array or slice of functions filled in the
+// package initialiser): the possible callees are the functions of the same
+// signature that the initialiser of that package stores anywhere (a
+// superset).  nil when the value does not come from such a table.
+func (m *MutAnalysis) tableCallees(v ssa.Value) []*ssa.Function {
+	sig, ok := v.Type().Underlying().(*types.Signature)
+	if !ok {
+		return nil
+	}
+	// the table: a global reached through loads, lookups and index operations
+	var glob *ssa.Global
+	cur := v
+	for steps := 0; steps < 6 && glob == nil; steps++ {
+		switch x := cur.(type) {
+		case *ssa.Extract:
+			cur = x.Tuple
+		case *ssa.Lookup:
+			cur = x.X
+		case *ssa.Index:
+			cur = x.X
+		case *ssa.IndexAddr:
+			cur = x.X
+		case *ssa.Field:
+			cur = x.X
+		case *ssa.FieldAddr:
+			cur = x.X
+		case *ssa.UnOp:
+			if x.Op != token.MUL {
+				return nil
+			}
+			cur = x.X
+		case *ssa.Global:
+			glob = x
+		default:
+			return nil
+		}
+	}
+	if glob == nil || glob.Pkg == nil {
+		return nil
+	}
+	init := glob.Pkg.Func("init")
+	if init == nil {
+		return nil
+	}
+	var out []*ssa.Function
+	seen := map[*ssa.Function]bool{}
+	add := func(val ssa.Value) {
+		var f *ssa.Function
+		switch y := val.(type) {
+		case *ssa.Function:
+			f = y
+		case *ssa.MakeClosure:
+			f, _ = y.Fn.(*ssa.Function)
+		case *ssa.ChangeType:
+			f, _ = y.X.(*ssa.Function)
+		}
+		if f != nil && !seen[f] && types.Identical(f.Signature, sig) {
+			seen[f] = true
+			out = append(out, f)
+		}
+	}
+	for _, b := range init.Blocks {
+		for _, ins := range b.Instrs {
+			switch x := ins.(type) {
+			case *ssa.MapUpdate:
+				add(x.Value)
+			case *ssa.Store:
+				add(x.Val)
+			}
+		}
+	}
+	return out
 }
